@@ -123,6 +123,11 @@ def payload_of(t, i):
     return ('%s#%d;' % (t, i)).encode()
 
 
+LIST2 = ['flush', 'readw', 'readw', 'clse']          # list whose reply arrives in two WRITEs
+PUSH2 = ['flush', 'flush', 'readw', 'clse']          # push that needs two WRITEs (maxdata 64, 40 bytes)
+PUSH2FAIL = ['flush', 'flush', 'readw', 'raise']     # the same push rejected by the device right after SEND
+
+
 class World(object):
     """One real device object with concurrent operations under the deterministic scheduler."""
 
@@ -133,7 +138,9 @@ class World(object):
         self.threads = sorted(prog)
         self.rec = rec or simdev.Recorder()
         self.rec.who = sched.current_name
-        self.dev = simdev.SimDevice(rec=self.rec, lazy=False, rid_of=lambda lid, dev: ridbase + lid)
+        md = 64 if any(p in (PUSH2, PUSH2FAIL) for p in prog.values()) else 4096
+        self.dev = simdev.SimDevice(rec=self.rec, lazy=False, rid_of=lambda lid, dev: ridbase + lid, auth=simdev.AuthPolicy(maxdata=md))
+        self.dev.reorder = True
         self.dev.service_for = self.service_for
         self.clock = simdev.VClock()
         self.core = transports.PipeCore(self.dev, rec=self.rec, clock=self.clock)
@@ -168,7 +175,13 @@ class World(object):
         if d == b'reboot:':
             return simdev.ShellService([], close=False)
         if d == b'sync:':
-            return simdev.SyncService(dev)
+            t = getattr(dev, 'cur_writer', None)
+            p = self.prog.get(t)
+            plan = simdev.SyncFailPlan('SEND', reason=b'denied') if p and p[-1] == 'raise' else None
+            cut = None
+            if p == LIST2:
+                cut = lambda b: [b[:7], b[7:]]  # noqa
+            return simdev.SyncService(dev, plan=plan, cutter=cut)
         return None
 
     def op(self, t):
@@ -181,6 +194,11 @@ class World(object):
             return lambda: d.reboot()
         if p == ['flush', 'readw', 'clse']:
             return lambda: d.stat('/' + t)
+        if p == LIST2:
+            return lambda: d.list('/' + t)
+        if p in (PUSH2, PUSH2FAIL):
+            import io
+            return lambda: d.push(io.BytesIO(bytes(range(40))), '/p', mtime=5)
         raise AssertionError('no public operation has the shape %r' % (p,))
 
     async def start(self):
@@ -229,7 +247,7 @@ class World(object):
         st = self.io._packet_store._dict
         devs = {}
         for s in self.dev.all_streams:
-            devs[s.lid] = dict(acks=len(s.acks), wait=s.await_ack, outq=sum(1 for k, _ in s.data if k == 'WRTE'))
+            devs[s.lid] = dict(acks=len(s.acks), wait=s.await_ack, outq=sum(1 for x in s.data if x[0] == 'WRTE'))
         return dict(
             pc={t: self.sched.th[t].at for t in self.threads}, lid=dict(self.lids), nid=self.device._local_id,
             tlock=self.io._transport_lock.holder or 'free',
@@ -290,5 +308,154 @@ def replay_tour(mode, prog, replies, paths, ridbase=10, stop_after=1, progress=N
     loop = asyncio.new_event_loop()
     try:
         return loop.run_until_complete(main())
+    finally:
+        loop.close()
+
+
+# ------------------------------------------------------------------ code->spec: schedule exploration on the real code
+def _wrap_op(world, t, fn, api):
+    """Record call/ret/exc events around the public call, in the thread's own context."""
+    rec = world.rec
+    if world.mode == 'sync':
+        def run():
+            rec.ev('call', api=api, decode=False)
+            try:
+                v = fn()
+            except sched.Abort:
+                raise
+            except Exception as e:  # noqa
+                rec.ev('exc', api=api, cls=type(e).__name__)
+                raise
+            rec.ev('ret', api=api, _value=v)
+            return v
+        return run
+
+    async def arun():
+        rec.ev('call', api=api, decode=False)
+        try:
+            v = await fn()
+        except sched.Abort:
+            raise
+        except Exception as e:  # noqa
+            rec.ev('exc', api=api, cls=type(e).__name__)
+            raise
+        rec.ev('ret', api=api, _value=v)
+        return v
+    return arun
+
+
+API_OF = {'shell': 'shell', 'stat': 'stat', 'list': 'list', 'push': 'push', 'reboot': 'reboot'}
+
+
+def api_name(p):
+    if p == ['shell']:
+        return 'shell'
+    if p == []:
+        return 'reboot'
+    if p == LIST2:
+        return 'list'
+    if p in (PUSH2, PUSH2FAIL):
+        return 'push'
+    return 'stat'
+
+
+async def run_schedule(mode, prog, replies, pick, ridbase=10, max_steps=2000):
+    """One execution of the real code under a schedule chosen by pick(enabled) -> (trace, info)."""
+    w = World(mode, prog, replies, ridbase)
+    w.op_plain = w.op
+    w.op = lambda t: _wrap_op(w, t, w.op_plain(t), api_name(prog[t]))
+    await w.start()
+    sched_log = []
+    try:
+        for _ in range(max_steps):
+            en = []
+            for t in w.threads:
+                r = w.sched.th[t]
+                if not r.done and r.runnable():
+                    en.append(('t', t, 0))
+            if w.core.h2d_q:
+                en.append(('dev', 'recv', 0))
+            for x in w.dev.ready():
+                en.append(('dev', 'okay' if x[1] == 'ack' else 'data', x[0]))
+            if not en:
+                readers = [t for t in w.threads if not w.sched.th[t].done and w.sched.th[t].at == 'read']
+                if not readers:
+                    break
+                # nothing can move and the device owes nothing: real time would now pass and the reader times out
+                w.rec.ev('stuck', t=readers[0])
+                w.core.force_timeout = True
+                sched_log.append(('timeout', readers[0], 0))
+                await w.sched.astep(readers[0])
+                continue
+            c = pick(en)
+            sched_log.append(c)
+            if c[0] == 't':
+                await w.sched.astep(c[1])
+            else:
+                await w.apply(dict(who='dev', what=c[1], l=c[2]))
+        stuck = [t for t in w.threads if not w.sched.th[t].done]
+    finally:
+        await w.stop()
+    # finish the trace: name shell results as payload units, mark stuck operations
+    lid_of = {}
+    tr = []
+    for e in w.rec.events:
+        f = {k: v for k, v in e.items() if not k.startswith('_')}
+        if e['ev'] == 'tx' and e['cmd'] == 'OPEN':
+            lid_of.setdefault(e['t'], wire.unlimbs(e['a0']))
+        if e['ev'] == 'ret':
+            t = e['t']
+            f['mode'], f['syms'], f['avail'] = 'units', [], True
+            if e['api'] == 'shell':
+                pay = [payload_of(t, i) for i in replies[t][0]]
+                from . import scen
+                f['units'] = scen.shell_units(e['_value'], pay, lid_of.get(t, 0))
+                # name payloads of other streams, should they appear
+                if f['units'] and f['units'][-1] == [[0, 0], 0]:
+                    for t2 in w.threads:
+                        if t2 != t and prog[t2] == ['shell'] and any(payload_of(t2, i) in e['_value'] for i in replies[t2][0]):
+                            f['units'][-1] = [wire.limbs(lid_of.get(t2, 0)), 1]
+            else:
+                f['units'] = []
+        tr.append(f)
+    for t in stuck:
+        tr.append(dict(ev='stuck', t=t))
+    return tr, dict(stuck=stuck, schedule=sched_log, results={t: w.results.get(t) for t in w.threads}, lids=dict(w.lids))
+
+
+def explore(mode, prog, replies, n, rng, ridbase=10):
+    """n random schedules (uniform and sticky mixes)."""
+    async def main():
+        out = []
+        for i in range(n):
+            sticky = rng.choice([0.0, 0.5, 0.8, 0.95])
+            last = [None]
+
+            def pick(en):
+                if last[0] in en and rng.random() < sticky:
+                    return last[0]
+                c = en[rng.randrange(len(en))]
+                last[0] = c
+                return c
+            out.append(await run_schedule(mode, prog, replies, pick, ridbase))
+        return out
+    loop = asyncio.new_event_loop()
+    try:
+        return loop.run_until_complete(main())
+    finally:
+        loop.close()
+
+
+def replay_schedule(mode, prog, replies, schedule, ridbase=10):
+    it = iter(schedule)
+
+    def pick(en):
+        c = tuple(next(it))
+        if c not in en:
+            raise sched.SchedError('replayed choice %r not enabled (%r)' % (c, en))
+        return c
+    loop = asyncio.new_event_loop()
+    try:
+        return loop.run_until_complete(run_schedule(mode, prog, replies, pick, ridbase))
     finally:
         loop.close()
